@@ -219,7 +219,7 @@ func runC11(r *Run) {
 		fn := m.Callback
 		// classify comparisons between maxAttempts and attempt
 		type cmpInfo struct {
-			strictWhenTrue bool // cond true  => attempt < max
+			strictWhenTrue  bool // cond true  => attempt < max
 			strictWhenFalse bool
 		}
 		cmps := map[string]cmpInfo{}
@@ -457,6 +457,11 @@ func runC11(r *Run) {
 		}
 	}
 	rt.Done()
+
+	// ---- nothing more is written once a transaction ended: shared with C10.reenter
+	re := r.Rule("C11.reenter", "the agent callback calls a handler-invoking agent method only while the transaction is not registered in the client table (otherwise the nested callback retransmits a transaction that is being ended: more than n+1 writes)", 1)
+	checkReenter(r, re, m, newKeyer())
+	re.Done()
 }
 
 func containsErrorField(v ssa.Value) bool {
